@@ -263,6 +263,9 @@ def production_cases(rep, tier):
             if len(toks) > 2:
                 # the same sentence written over several indented lines: layout is not part of the tree, and verbatim (raw query) parts must reach a fixed point
                 variants.append(('layout', ''.join(t + ('\n   ' if i % 2 else ' ') for i, t in enumerate(toks)).strip()))
+            if 'abc' in toks:
+                # every plain name written as a quoted name that needs its quotes: the tree must carry the name, the text must keep the quotes
+                variants.append(('quoted', ' '.join('`a b`' if t == 'abc' else t for t in toks)))
             for tag, sql2 in variants:
                 n += 1
                 try:
